@@ -105,6 +105,14 @@ def fsBoundaryOp (j : Json) : R Json := do
     (← qf j "r00") (← qf j "c2") (← qf j "s2")
   return .arr #[ofV3 b.1, ofV3 b.2.1, ofV3 b.2.2]
 
+/-- the public contract of the `"fs"` constructor evaluated on observed boundary points:
+`⟨p, p⟩ - 1` and `⟨p, centre⟩ - cos(2 rad)` for each point (conclusion of `fs_disk_boundary`) -/
+def fsResidualOp (j : Json) : R Json := do
+  let pts ← (← arr (← field j "pts")).mapM v3Of
+  let ctr ← v3Of (← field j "ctr")
+  let c2 ← qf j "c2"
+  return .arr (pts.map fun p => Json.arr #[ofQ (dot3 p p - 1), ofQ (dot3 p ctr - c2)])
+
 def interactionsOp (j : Json) : R Json := do
   let t := interactions (← qf j "d") (← qf j "r1") (← qf j "r2")
   return .arr #[.bool t.1, .bool t.2.1, .bool t.2.2]
@@ -138,6 +146,6 @@ def relOp (which : String) (j : Json) : R Json := do
 def ops : List (String × Handler) :=
   [("c20.p2s", p2sOp), ("c20.s2p", s2pOp), ("c20.circle", circleOp), ("c20.disk", diskOp),
    ("c20.mobius", mobiusOp), ("c20.cross_ratio", crossOp), ("c20.complement", complementOp),
-   ("c20.interactions", interactionsOp), ("c20.fs_boundary", fsBoundaryOp), ("c20.contains", relOp "contains"),
+   ("c20.interactions", interactionsOp), ("c20.fs_boundary", fsBoundaryOp), ("c20.fs_residual", fsResidualOp), ("c20.contains", relOp "contains"),
    ("c20.intersects", relOp "intersects")]
 end GT.Driver.C20
